@@ -542,8 +542,52 @@ func genRPC(t *rapid.T, profile string) *Case {
 	c.Ops = ops
 	if profile == "C02" && pct(t, 12, "slowcaller") {
 		appendSlowCaller(t, c)
+	} else if profile == "C02" && pct(t, 8, "blockedcallee") {
+		appendBlockedCallee(t, c)
 	}
 	return c
+}
+
+// appendBlockedCallee adds three in-process sessions and a closing scenario: a
+// callee that has stopped reading, with a full queue, is called. The call
+// cannot be routed: its caller gets one ERROR and the router keeps nothing of
+// it - whatever the callee does afterwards (reads again, leaves).
+func appendBlockedCallee(t *rapid.T, c *Case) {
+	n := len(c.Sess)
+	caller, callee, other := n, n+1, n+2
+	q := pick(t, []int{1, 2, 8}, "blockq")
+	c.Sess = append(c.Sess,
+		SessCfg{Realm: c.Sess[0].Realm, Roles: fullRoles()},
+		SessCfg{Realm: c.Sess[0].Realm, Roles: fullRoles(), QSize: q},
+		SessCfg{Realm: c.Sess[0].Realm, Roles: fullRoles()})
+	call := Op{K: "call", S: caller, URI: "verif.blocked", Args: []V{VInt(7)}}
+	if pct(t, 40, "blocktimeout") {
+		call.Opts = []KV{{"timeout", VI64(pick(t, []int64{50, 1000}, "blockto"))}}
+	}
+	c.Ops = append(c.Ops,
+		Op{K: "register", S: callee, URI: "verif.blocked"},
+		Op{K: "subscribe", S: callee, URI: "verif.fill2"},
+		Op{K: "stall", S: callee})
+	for i := 0; i < q+uni(t, 3, "over2"); i++ {
+		c.Ops = append(c.Ops, Op{K: "publish", S: other, URI: "verif.fill2", Args: []V{VInt(i)}})
+	}
+	c.Ops = append(c.Ops, call)
+	if pct(t, 30, "blockagain") {
+		c.Ops = append(c.Ops, Op{K: "call", S: caller, URI: "verif.blocked", Args: []V{VInt(8)}})
+	}
+	c.Ops = append(c.Ops, Op{K: "advance", Ns: pick(t, []int64{0, 49e6, 2e9}, "blockadv")})
+	switch uni(t, 3, "blockend") {
+	case 0:
+		c.Ops = append(c.Ops, Op{K: "resume", S: callee},
+			Op{K: "call", S: caller, URI: "verif.blocked", Args: []V{VInt(9)}},
+			Op{K: "yield", S: callee, Ref: "inv:-1:-1", Args: []V{VStr("now")}})
+	case 1:
+		c.Ops = append(c.Ops, Op{K: "drop", S: callee})
+	default:
+		c.Ops = append(c.Ops, Op{K: "resume", S: callee}, Op{K: "goodbye", S: callee})
+	}
+	c.Ops = append(c.Ops, Op{K: "advance", Ns: 2e9},
+		Op{K: "call", S: caller, URI: "verif.blocked", Args: []V{VInt(10)}})
 }
 
 // appendSlowCaller adds three in-process sessions and a closing scenario: a
